@@ -52,6 +52,9 @@ func Run(r *ev.Run) {
 	r.Bounds["send_logs"] = []bool{false, true}
 	sweepBounds(r)
 
+	if _, _, worker := par.Shard(); !worker {
+		runPivotPair(r)
+	}
 	start := time.Now()
 	par.Run(r, nShards, budget+45*time.Second, func(i, n int, r *ev.Run) {
 		if n != nShards {
